@@ -1,6 +1,6 @@
 (* linker_symbols_style.rs and utils.rs::capitalize, driven by the templates of Generated.v *)
 From Slinky Require Import Model.Types Model.Generated.
-Open Scope string_scope.
+Local Open Scope string_scope.
 
 Definition pick (st : style) (t : list string * list string) : list string :=
   match st with Splat => fst t | Makerom => snd t end.
